@@ -82,7 +82,7 @@ def cases(tier, seed):
                        'd': int(r.randint(2, 5 if q else 7)),
                        'classes': int(r.randint(2, 4)), 'variant': 'plain',
                        'nmax': 48},
-                'n_tuples': int(r.choice([12, 24, 40])),
+                'n_tuples': int(r.choice([12, 24, 40, 2, 3, 5])),
                 'seed': int(r.randint(1000))})
   return out
 
